@@ -161,11 +161,11 @@ class Harness:
         if op[0] == 'add':
             name, kind = op[1], op[2]
             src, vals, buf = self._source(kind)
-            before = self.cn(world)
+            before = self.cn(world.cells)
             try:
                 world.add_cell_component(name, src)
             except (TypeError, IndexError) as e:
-                if kind in ('lookup_rank', 'lookup_np_rank') and self.rank < 3 and self.cn(world) == before:
+                if kind in ('lookup_rank', 'lookup_np_rank') and self.rank < 3 and self.cn(world.cells) == before:
                     # as-is behaviour K: the generator is handed a 3-tuple, indexes one level too deep, raises, and
                     # nothing is added.  Matches finding F4 exactly (exception kind + unchanged table).
                     w.known_now = Violation(
@@ -187,11 +187,11 @@ class Harness:
                 w.bufs.pop(name, None)
                 w.last = ('remove', 'ok')
             else:
-                before = self.cn(world)
+                before = self.cn(world.cells)
                 try:
                     world.remove_cell_component(name)
                 except Core.ComponentNotFoundError:
-                    if self.cn(world) != before:
+                    if self.cn(world.cells) != before:
                         raise Violation(f'rejected removal of unknown component {name!r} changed the cells table')
                     w.last = ('remove', 'rejected')
                     return
